@@ -20,6 +20,7 @@ declare -A REL=(
  [B17-unsorted-indent4]="C13 C14 C15"
  [B18-stream-write-in-two-pieces]="C17"
  [B19-direct-send-supersedes-parked]="C07 C08 C09 C12 C19"
+ [B20-send-timeout-as-transport-error]="C03 C12 C06 C08"
 )
 for b in "${!REL[@]}"; do
   [ -n "$1" ] && [[ "$b" != $1* ]] && continue
